@@ -179,25 +179,25 @@ def eval_term(d, t=None, _depth=0):
 
 
 def trans_deps(d):
-    """provider id -> set of provider ids it transitively depends on (among effective providers)."""
+    """provider id -> set of provider ids it transitively depends on (among effective providers); a provider on a
+    cycle is in its own set."""
     sup = suppliers(d)
     byid = {p['id']: p for p in eff_providers(d)}
-    memo = {}
-
-    def go(pid, stack=()):
-        if pid in memo:
-            return memo[pid]
-        if pid in stack:
-            return set()
-        s = set()
-        for t in byid[pid]['requires']:
-            if t in sup:
-                q = sup[t][0][0]
-                s.add(q)
-                s |= go(q, stack + (pid,))
-        memo[pid] = s
-        return s
-    return {p: go(p) for p in byid}
+    direct = {}
+    for pid, p in byid.items():
+        direct[pid] = {sup[t][0][0] for t in p['requires'] if t in sup}
+    out = {}
+    for pid in byid:
+        seen = set()
+        todo = list(direct[pid])
+        while todo:
+            q = todo.pop()
+            if q in seen:
+                continue
+            seen.add(q)
+            todo.extend(direct[q])
+        out[pid] = seen
+    return out
 
 
 def tla_decl(d):
@@ -297,6 +297,7 @@ def random_decl(rng, did, nmin=3, nmax=7, p_async=0.45, p_fallible=0.3, construc
         return name
 
     pending_struct = []
+    multi_sources = []
     zia = 0
     for i in range(n):
         pid = 'P%d' % i
@@ -325,6 +326,17 @@ def random_decl(rng, did, nmin=3, nmax=7, p_async=0.45, p_fallible=0.3, construc
                     req.append(new_arg())
             if constructs and rng.random() < 0.12:
                 req.insert(rng.randint(0, len(req)), 'ctx')
+            # several values from ONE producer: both results of a multi-value provider, a type and its Bind alias,
+            # or the same type required twice
+            if multi_sources and rng.random() < 0.35:
+                src = rng.choice(multi_sources)
+                for t in src:
+                    if t not in req:
+                        req.insert(rng.randint(0, len(req)), t)
+            if req and rng.random() < 0.12:
+                t = rng.choice([r for r in req])
+                if t != 'ctx':
+                    req.insert(rng.randint(0, len(req)), t)
         # outputs
         groups = []
         nres = 1
@@ -357,6 +369,9 @@ def random_decl(rng, did, nmin=3, nmax=7, p_async=0.45, p_fallible=0.3, construc
         for g in groups:
             for t in g:
                 produced.append(t)
+        allt = [t for g in groups for t in g]
+        if len(allt) >= 2:
+            multi_sources.append(allt)
         # struct expansions (maybe)
         for s in list(pending_struct):
             if rng.random() < 0.8:
@@ -371,9 +386,16 @@ def random_decl(rng, did, nmin=3, nmax=7, p_async=0.45, p_fallible=0.3, construc
     d = {'id': did, 'injector': 'Init_' + did, 'ret': ret, 'types': types, 'providers': provs,
          'layout': None, 'planted': None}
     # make the sink depend on a good part of the graph: add a final consumer with probability
-    if rng.random() < 0.7:
-        k = min(len(produced), rng.randint(2, 4))
-        req = rng.sample(produced, k)
+    if rng.random() < 0.8:
+        # the sink consumes what nobody else consumes (so that most of the graph is needed), up to 5 inputs
+        consumed = {r for p in provs for r in p.get('requires', [])}
+        expanded = {p['struct'] for p in provs if p['kind'] == 'structexp'}
+        loose = [t for t in produced if t not in consumed and t not in expanded and types[t]['form'] != 'iface']
+        rng.shuffle(loose)
+        req = loose[:5]
+        if len(req) < 2:
+            req += [t for t in rng.sample(produced, min(len(produced), 3)) if t not in req]
+        rng.shuffle(req)
         t = new_type()
         provs.append({'id': 'P%d' % n, 'kind': 'fn', 'requires': req, 'provides': [[t]], 'async': rng.random() < 0.2,
                       'fallible': rng.random() < p_fallible, 'wrap': 'async-bind', 'struct': ''})
@@ -419,3 +441,156 @@ def rename(d, did):
     d['id'] = did
     d['injector'] = 'Init_' + did
     return d
+
+
+# --------------------------------------------------------------------------------------------------------------------
+# planted defects (C09): every planted declaration is still well-typed Go, only the provider graph is unsatisfiable
+
+def _fresh(d, prefix):
+    k = 0
+    while '%s%d' % (prefix, 900 + k) in d['types'] or any(p['id'] == '%s%d' % (prefix, 900 + k) for p in d['providers']):
+        k += 1
+    return '%s%d' % (prefix, 900 + k)
+
+
+def plant_cycles(d):
+    """All single back edges: for needed fn providers a and b with b upstream of (or equal to) a, make b require one of
+    the types a supplies (result type, Bind alias, second result, or an expanded field of a's struct result)."""
+    out = []
+    if not accepts(d):
+        return out
+    eff = {p['id']: p for p in eff_providers(d)}
+    td = trans_deps(d)
+    need = [p for p in needed(d) if eff[p]['kind'] == 'fn']
+    n = 0
+    for a in need:
+        ups = [b for b in need if b == a or b in td[a]]
+        # types whose production depends on a: a's own outputs + fields expanded from a's struct outputs
+        outs = []
+        for g in eff[a]['provides']:
+            for t in g:
+                outs.append((t, 'bind' if t != g[0] else ('multi' if len(eff[a]['provides']) > 1 else 'fn')))
+        for x in d['providers']:
+            if x['kind'] == 'structexp' and any(x['struct'] in g for g in eff[a]['provides']):
+                for fn_, ft in d['types'][x['struct']].get('fields', []):
+                    outs.append((ft, 'field'))
+        for b in ups:
+            for t, via in outs:
+                if t in eff[b]['requires']:
+                    continue
+                v = copy.deepcopy(d)
+                for p in v['providers']:
+                    if p['id'] == b:
+                        p['requires'] = list(p['requires']) + [t]
+                v['id'] = '%sc%d' % (d['id'], n)
+                v['injector'] = 'Init_' + v['id']
+                v['planted'] = {'kind': 'cycle', 'from': a, 'to': b, 'type': t, 'via': via, 'self': a == b}
+                n += 1
+                if not ambiguous(v) and reach_cyclic(v):
+                    out.append(v)
+    return out
+
+
+def plant_dups(d):
+    out = []
+    if not accepts(d):
+        return out
+    sup = suppliers(d)
+    n = 0
+    supplied = sorted(t for t in sup if t != 'ctx')
+    for t in supplied:
+        form = d['types'][t]['form']
+        # (i) a second function provider of t (not for interfaces: nothing returns a bare interface here)
+        if form != 'iface':
+            v = copy.deepcopy(d)
+            pid = _fresh(v, 'P')
+            v['providers'].append({'id': pid, 'kind': 'fn', 'requires': [], 'provides': [[t]], 'async': False,
+                                   'fallible': False, 'wrap': 'async-bind', 'struct': ''})
+            v['layout'] = list(v['layout']) + [pid]
+            v['planted'] = {'kind': 'dup', 'type': t, 'via': 'fn'}
+            v['id'] = '%sd%d' % (d['id'], n)
+            n += 1
+            out.append(v)
+        # (ii) a struct field of type t, expanded
+        if form != 'iface' and 'fields' not in d['types'][t]:
+            v = copy.deepcopy(d)
+            s = _fresh(v, 'S')
+            other = _fresh(v, 'T')
+            v['types'][other] = {'form': 'val'}
+            v['types'][s] = {'form': 'ptr', 'fields': [['Fa', t], ['Fb', other]]}
+            pid = _fresh(v, 'P')
+            v['providers'].append({'id': pid, 'kind': 'fn', 'requires': [], 'provides': [[s]], 'async': False,
+                                   'fallible': False, 'wrap': 'async-bind', 'struct': ''})
+            xid = 'X' + s[1:]
+            v['providers'].append({'id': xid, 'kind': 'structexp', 'requires': [], 'provides': [], 'async': False,
+                                   'fallible': False, 'wrap': 'async-bind', 'struct': s})
+            v['layout'] = list(v['layout']) + [pid, xid]
+            v['planted'] = {'kind': 'dup', 'type': t, 'via': 'field'}
+            v['id'] = '%sd%d' % (d['id'], n)
+            n += 1
+            out.append(v)
+    # (iii) Bind: the same interface bound on two different providers
+    fns = [p for p in d['providers'] if p['kind'] == 'fn']
+    if len(fns) >= 2:
+        v = copy.deepcopy(d)
+        i = _fresh(v, 'I')
+        v['types'][i] = {'form': 'iface'}
+        k = 0
+        for p in v['providers']:
+            if p['kind'] == 'fn' and k < 2 and 'fields' not in v['types'][p['provides'][0][0]]:
+                p['provides'][0] = list(p['provides'][0]) + [i]
+                k += 1
+        if k == 2:
+            v['planted'] = {'kind': 'dup', 'type': i, 'via': 'bind'}
+            v['id'] = '%sd%d' % (d['id'], n)
+            n += 1
+            out.append(v)
+    # (iv) two fields of one type in an expanded struct
+    v = copy.deepcopy(d)
+    s = _fresh(v, 'S')
+    ft = _fresh(v, 'T')
+    v['types'][ft] = {'form': 'val'}
+    v['types'][s] = {'form': 'val', 'fields': [['Fa', ft], ['Fb', ft]]}
+    pid = _fresh(v, 'P')
+    v['providers'].append({'id': pid, 'kind': 'fn', 'requires': [], 'provides': [[s]], 'async': False,
+                           'fallible': False, 'wrap': 'async-bind', 'struct': ''})
+    xid = 'X' + s[1:]
+    v['providers'].append({'id': xid, 'kind': 'structexp', 'requires': [], 'provides': [], 'async': False,
+                           'fallible': False, 'wrap': 'async-bind', 'struct': s})
+    v['layout'] = list(v['layout']) + [pid, xid]
+    v['planted'] = {'kind': 'dup', 'type': ft, 'via': 'twofields'}
+    v['id'] = '%sd%d' % (d['id'], n)
+    out.append(v)
+    for v in out:
+        v['injector'] = 'Init_' + v['id']
+    return [v for v in out if ambiguous(v)]
+
+
+def plant_orphan(d):
+    if not accepts(d):
+        return []
+    v = copy.deepcopy(d)
+    s = _fresh(v, 'S')
+    ft = _fresh(v, 'T')
+    v['types'][ft] = {'form': 'val'}
+    v['types'][s] = {'form': 'ptr', 'fields': [['Fa', ft]]}
+    xid = 'X' + s[1:]
+    v['providers'].append({'id': xid, 'kind': 'structexp', 'requires': [], 'provides': [], 'async': False,
+                           'fallible': False, 'wrap': 'async-bind', 'struct': s})
+    v['layout'] = list(v['layout']) + [xid]
+    v['planted'] = {'kind': 'orphan', 'type': s}
+    v['id'] = d['id'] + 'o0'
+    v['injector'] = 'Init_' + v['id']
+    return [v] if orphan_structs(v) else []
+
+
+def cycle_types(d):
+    """Types supplied by needed providers that lie on a cycle."""
+    eff = {p['id']: p for p in eff_providers(d)}
+    td = trans_deps(d)
+    out = set()
+    for p in needed(d):
+        if p in td[p]:
+            for g in eff[p]['provides']:
+                out |= set(g)
+    return out
